@@ -218,3 +218,41 @@ package ch
 //@   ensures old(c.closed) ==> err != nil && c.conn.olen == old(c.conn.olen) && c.conn.closes == old(c.conn.closes) && len(c.writer.buf.Buf) == old(len(c.writer.buf.Buf)) [C04] {closed-client-rejects-without-touching-conn}
 //@ callsite (*Client).packet
 //@   assert len(c.writer.vec) == 0 && len(c.writer.buf.Buf) == 0 [C04] {request-flushed-before-waiting-for-the-answer}
+
+// ---------------------------------------------------------------------------
+// C03: the receiving side, per function.
+
+//@ -- decodeBlock: the block handler runs only for a successfully decoded block that is not the
+//@ -- empty end marker (and at most once: there is a single call, outside any loop)
+//@ contract (c *Client) decodeBlock(ctx, opt) (err) props(C03)
+//@   requires c != nil && ctx != nil && c.reader != nil && opt.Handler != nil
+//@   modifies all(c.reader), all(ctx), all(opt.Result)
+//@ callsite value:Handler
+//@   assert !(block.Columns == 0 && block.Rows == 0) [C03] {handler-only-for-a-non-empty-block}
+//@   assert 0 <= block.Rows && block.Rows <= 100000000 [C03,C06] {handler-sees-a-validated-row-count}
+
+//@ -- handlePacket: a server exception always surfaces as an error; so does a packet kind the
+//@ -- client does not handle; progress and profile packets are decoded before their callbacks run
+//@ contract (c *Client) handlePacket(ctx, p, q) (err) props(C03)
+//@   requires c != nil && ctx != nil && c.reader != nil
+//@   modifies all(c.reader), all(ctx), all(q.OnLogs), all(q.OnLog)
+//@   ensures p == 2 ==> err != nil [C03] {server-exception-is-returned-as-an-error}
+//@   ensures p != 2 && p != 3 && p != 6 && p != 11 && p != 14 && p != 10 ==> err != nil [C03] {unhandled-packet-kind-is-an-error}
+//@ callsite value:f#1
+//@   assert p == 3 [C03] {progress-callback-only-for-a-progress-packet}
+//@ callsite value:f#2
+//@   assert p == 6 [C03] {profile-callback-only-for-a-profile-packet}
+
+//@ -- the receive loop of Do: nil is returned only on end-of-stream; data and totals packets go to
+//@ -- decodeBlock, everything else except end-of-stream to handlePacket
+//@ contract (c *Client) Do$5() (err) props(C03,C08)
+//@   requires *c != nil && *ctx != nil && c.reader != nil
+//@   modifies all(*c), all(*ctx), all(q.Result), gotException.val, all(q.OnLogs), all(q.OnLog)
+//@   ensures err == nil ==> code == 5 [C03] {nil-only-on-end-of-stream}
+//@ callsite (*Client).decodeBlock
+//@   assert code == 1 || code == 7 [C03] {blocks-only-for-data-and-totals-packets}
+//@ callsite (*Client).handlePacket
+//@   assert code != 1 && code != 7 && code != 5 [C03] {other-packets-go-to-handlePacket}
+//@ loop 0 ()
+//@   modifies all(*c), all(*ctx), all(q.Result), gotException.val, all(q.OnLogs), all(q.OnLog)
+//@   invariant *c != nil && *ctx != nil && c.reader != nil
